@@ -49,7 +49,7 @@ func (st *State) havocPrefix(prefix string) {
 	st.fx.counter++
 	gen := fmt.Sprintf("hp%d", st.fx.counter)
 	for k := range st.heap.m {
-		if k == prefix || strings.HasPrefix(k, prefix+".") || strings.HasPrefix(k, prefix+"#") {
+		if k == prefix || strings.HasPrefix(k, prefix+".") || strings.HasPrefix(k, prefix+"#") || (prefix == "ghost" && strings.HasPrefix(k, "ghost:")) {
 			delete(st.heap.m, k)
 		}
 	}
@@ -166,7 +166,7 @@ func (st *State) heapTermIn(h *HeapView, key string, arity int, sort string) str
 		gen = "0"
 	}
 	for p, g := range h.pre {
-		if key == p || strings.HasPrefix(key, p+".") || strings.HasPrefix(key, p+"#") {
+		if key == p || strings.HasPrefix(key, p+".") || strings.HasPrefix(key, p+"#") || (p == "ghost" && strings.HasPrefix(key, "ghost:")) {
 			gen = g
 		}
 	}
